@@ -187,6 +187,10 @@ def assemble(units):
         b = bytearray(unit_blob(u, ctx))
         if u["kind"] in ("PIC", "F0", "FN"):
             b[13:17] = (u["picnum"] % (1 << 32)).to_bytes(4, "big")
+        if u["kind"] == "FN" and u.get("xy") is not None:
+            # explicit (possibly aliased / out-of-range) fragment_x_offset, fragment_y_offset
+            b[21:23] = int(u["xy"][0]).to_bytes(2, "big")
+            b[23:25] = int(u["xy"][1]).to_bytes(2, "big")
         blobs.append(b)
         first_in_seq = u["kind"] == "EOS"
     out = bytearray()
@@ -330,7 +334,7 @@ def defect(draw, units, ctx):
     """Inject one defect (mutates and returns units, name)."""
     kind = draw(st.sampled_from(["swap", "delete", "dup", "insert", "next", "prev", "picnum", "version", "level", "variant",
                                  "alien", "fragshape", "drop_eos", "next_zero_nonpic", "interleave_pic", "restart_frag",
-                                 "interleave_pic", "restart_frag"]))
+                                 "interleave_pic", "restart_frag", "drop_last_picture", "frag_xy", "frag_xy"]))
     n = len(units)
     i = draw(st.integers(0, n - 1))
     j = draw(st.integers(0, n - 1))
@@ -398,6 +402,25 @@ def defect(draw, units, ctx):
             k = cands[draw(st.integers(0, len(cands) - 1))]
             prof = units[k]["profile"]
             units.insert(k, U("PIC" if kind == "interleave_pic" else "F0", profile=prof, picnum=0))
+    elif kind == "frag_xy":
+        # declare another (x, y) offset for the same slices: aliases of the same raster index (x + 2k, y - k),
+        # transposed or arbitrary values
+        cands = [x for x in units if x["kind"] == "FN"]
+        if cands:
+            x = cands[draw(st.integers(0, len(cands) - 1))]
+            s0 = x["start"]
+            x["xy"] = list(draw(st.sampled_from([(s0, 0), (s0 % 2 + 2, s0 // 2 - 1) if s0 >= 2 else (s0 + 2, 0), (s0 // 2, s0 % 2),
+                                                 (s0 % 2, s0 // 2), (0, s0), (s0 % 2 + 2, s0 // 2), (65535, 0), (0, 0), (1, 1)])))
+            if x["xy"][0] < 0 or x["xy"][1] < 0:
+                x["xy"] = [s0, 0]
+    elif kind == "drop_last_picture":
+        # remove the last whole picture (numbering of the others stays consistent): an odd number of fields remains
+        starts = [k for k, x in enumerate(units) if x["kind"] in ("PIC", "F0")]
+        if starts:
+            k = starts[-1]
+            del units[k]
+            while k < len(units) and units[k]["kind"] == "FN":
+                del units[k]
     elif kind == "drop_eos":
         if units and units[-1]["kind"] == "EOS":
             units.pop()
@@ -525,7 +548,7 @@ def compact(u):
     elif u["kind"] in ("PIC", "F0"):
         s += "(%s,#%d)" % (u["profile"], u["picnum"])
     elif u["kind"] == "FN":
-        s += "(%s,#%d,%d@%d)" % (u["profile"], u["picnum"], u["count"], u["start"])
+        s += "(%s,#%d,%d@%d%s)" % (u["profile"], u["picnum"], u["count"], u["start"], (" xy=%r" % (u["xy"],)) if u.get("xy") is not None else "")
     elif u["kind"] in ("PAD", "AUX"):
         s += "(%d)" % u["len"]
     if u["next"] != "ok":
